@@ -225,7 +225,21 @@ def _t_r7(line, arg=None):
     return '%slet verif_%s = [%s]; for verif_i_%s in 0..verif_%s.len()' % (ind, x, lst, x, x)
 
 
-TRANSFORMERS = [('Rone', _t_one_shl), ('Rdiv', _t_opassign), ('R10', _t_r10), ('Rit', _t_forit), ('Rfor', _t_forname), ('R8', _t_r8), ('Rsort', _t_sort), ('R7', _t_r7), ('R1', _t_r1), ('R1u', _t_unsafe), ('ret', _t_ret), ('brace', _t_brace)]
+RVEC_RE = re.compile(r'^(\s*)for (\w+) in (\w+) \{\s*$')
+RVEC_OUT = re.compile(r'^for verif_i_(\w+) in 0\.\.(\w+)\.len\(\)$')
+
+
+def _t_rvec(line, arg=None):
+    """Rvec: `for X in V {` (V a Vec consumed by value) -> `for verif_i_X in 0..V.len()` (header clauses follow, then `{`
+    and the binding `let X = V[verif_i_X];`): the installed vstd has no specification for `vec::IntoIter`"""
+    m = RVEC_RE.match(line)
+    if not m:
+        return line
+    ind, x, v = m.groups()
+    return '%sfor verif_i_%s in 0..%s.len()' % (ind, x, v)
+
+
+TRANSFORMERS = [('Rvec', _t_rvec), ('Rone', _t_one_shl), ('Rdiv', _t_opassign), ('R10', _t_r10), ('Rit', _t_forit), ('Rfor', _t_forname), ('R8', _t_r8), ('Rsort', _t_sort), ('R7', _t_r7), ('R1', _t_r1), ('R1u', _t_unsafe), ('ret', _t_ret), ('brace', _t_brace)]
 
 
 def infer_transform(pinned_line, ann_line):
@@ -279,6 +293,9 @@ def key(line):
     m = R7_OUT.match(s)
     if m:
         return 'for %s in [%s]' % (m.group(1), re.sub(r'\s+', ' ', m.group(2)))
+    m = RVEC_OUT.match(s)
+    if m:
+        return 'for %s in %s' % (m.group(1), m.group(2))
     s = _sub_get_unchecked(s)
     s = re.sub(r'\bunsafe\s*\{', '{', s)
     if s == '{':
@@ -447,7 +464,7 @@ class Script:
                         if all(norm(x) == '' or norm(x).startswith('//') for x in P[bi1:bi2]) and not js:
                             continue
                         raise Undecided("a rewritten block changed near %r" % P[pi].strip())
-                    if pi in self.transform and ('brace' in self.transform[pi][0] or 'R7' in self.transform[pi][0]):
+                    if pi in self.transform and ('brace' in self.transform[pi][0] or 'R7' in self.transform[pi][0] or 'Rvec' in self.transform[pi][0]):
                         # the annotated loop / fn header no longer exists in this form: its clauses are orphaned.
                         # They are dropped (a loop that is gone has no invariant); what the changed code must
                         # still satisfy is decided by the remaining obligations.
